@@ -57,11 +57,6 @@ def scalePt (f p : List Rat) : List Rat := List.zipWith (fun fi x => x * fi) f p
 /-- `p ↦ (p_i + b_i)_i` -/
 def shiftPt (b p : List Rat) : List Rat := List.zipWith (fun bi x => x + bi) b p
 
-/-- The points of a coordinate-system conversion `as_(system)`: a pointwise function `φ` (the
-rational model keeps `φ` abstract; over `ℝ` it is `toPolar` / `toCart`) of the **current** points.
-There is no other state: no cache, no memory of earlier conversions. -/
-def convPoints (φ : List Rat → List Rat) (c : Coords) : List (List Rat) := c.points.map φ
-
 /-! ## In-place coordinate arithmetic (`__imul__`, `__iadd__`, `reverse`) -/
 
 /-- apply one function per axis to the coordinate values -/
@@ -103,6 +98,13 @@ deriving DecidableEq, Repr
 def Grid.eq (a b : Grid) : Bool := decide (a.system = b.system) && a.coords.eq b.coords
 
 def Grid.eqOld (a b : Grid) : Bool := decide (a.system = b.system) && a.coords.eqOld b.coords
+
+/-- `Grid.__eq__` when coordinates may be **NaN** (`na` / `nb`: "some coordinate value of `a` / `b` — a
+`delta` or `zero` entry of regular coordinates, an axis or column entry otherwise — is NaN"; the
+rational grid holds any placeholder at those positions).  `np.array_equal` compares elementwise with
+IEEE `==`, under which NaN differs from everything, itself included: with a NaN on either side the
+answer is `False` whatever the shapes and the other values are. -/
+def Grid.eqNaN (a b : Grid) (na nb : Bool) : Bool := a.eq b && !na && !nb
 
 def Grid.hashInput (g : Grid) : List Tok := Tok.name g.system :: g.coords.hashInput
 
@@ -214,6 +216,93 @@ def Grid.reverse (g : Grid) : Grid := { g with coords := g.coords.reverse, weigh
 
 /-- `Grid.reverse` before the repair: cached weights stay in the old order -/
 def Grid.reverseOld (g : Grid) : Grid := { g with coords := g.coords.reverse }
+
+/-! ## Float-like arithmetic (C10: what an in-place shift does to *floating-point* coordinates)
+
+The exact-rational operations above are what the code does whenever the float arithmetic is exact
+(the correspondence generates dyadic values for that reason).  In general `x += b` stores
+`fl(x + b)`.  `Coords.shiftR rnd` is the in-place shift with a rounding function applied to every
+stored sum; `roundBin 53 (-1022)` is IEEE-754 binary64 round-to-nearest-even (normal and subnormal
+range; overflow to ±inf is outside the model). -/
+
+def pow2 (e : Int) : Rat := if 0 ≤ e then ((2 ^ e.toNat : Nat) : Rat) else 1 / ((2 ^ (-e).toNat : Nat) : Rat)
+
+/-- `⌊log₂ |q|⌋` for `q ≠ 0` -/
+def ilog2 (q : Rat) : Int :=
+  let e : Int := (q.num.natAbs.log2 : Int) - (q.den.log2 : Int)
+  if pow2 e ≤ absQ q then e else e - 1
+
+/-- round half to even of a non-negative rational, as an integer -/
+def rheNat (x : Rat) : Nat :=
+  let f := x.floor
+  let r := x - (f : Rat)
+  (if r < 1 / 2 then f else if 1 / 2 < r then f + 1 else if f % 2 = 0 then f else f + 1).toNat
+
+/-- round to nearest, ties to even, to `p` significant bits with minimal exponent `emin`
+(`p = 53`, `emin = -1022`: binary64) -/
+def roundBin (p : Nat) (emin : Int) (q : Rat) : Rat :=
+  if q = 0 then 0 else
+    let e := max (ilog2 q) emin
+    let ulp := pow2 (e - ((p : Int) - 1))
+    let m : Rat := ((rheNat (absQ q / ulp) : Nat) : Rat) * ulp
+    if 0 ≤ q then m else -m
+
+def roundF64 : Rat → Rat := roundBin 53 (-1022)
+
+/-- `coords += b` where every stored sum is rounded by `rnd` -/
+def Coords.shiftR (rnd : Rat → Rat) (b : List Rat) : Coords → Coords
+  | .regular a => .regular (List.zipWith (fun x bi => { x with zero := rnd (x.zero + bi) }) a b)
+  | .separated a => .separated (List.zipWith (fun ax bi => ax.map (fun x => rnd (x + bi))) a b)
+  | .unstructured c => .unstructured (List.zipWith (fun col bi => col.map (fun x => rnd (x + bi))) c b)
+
+/-- the values an in-place shift along axis `i` rewrites: the origin of a regular axis, every stored
+coordinate otherwise -/
+def Coords.shiftVals : Coords → List (List Rat)
+  | .regular a => a.map fun x => [x.zero]
+  | .separated a => a
+  | .unstructured c => c
+
+/-- does every value the shift rewrites absorb its shift, `rnd (x + b_i) = x`?  (decidable form of the
+right-hand side of `shiftF_keeps_iff`) -/
+def Coords.absorbs (rnd : Rat → Rat) (b : List Rat) (c : Coords) : Bool :=
+  (List.zip c.shiftVals b).all fun vb => vb.1.all fun x => decide (rnd (x + vb.2) = x)
+
+def Grid.shiftR (rnd : Rat → Rat) (b : List Rat) (g : Grid) : Grid := { g with coords := g.coords.shiftR rnd b }
+
+/-! ## Coordinate-system conversion `as_`: an exact executable model
+
+`_cartesian_to_polar` computes `(hypot(x, y), arctan2(y, x))`, `_polar_to_cartesian` computes
+`(r cos θ, r sin θ)`.  A rational model cannot hold `θ`; it holds the **direction** `(c, s) = (cos θ,
+sin θ)` instead — a rational point of the unit circle exactly when `x² + y²` is a rational square
+("Pythagorean" points).  A polar point of this model is `[r, c, s]`.  `none` = the radius is
+irrational (outside the exact model; the oracle and the `ℝ` theorems cover those points). -/
+
+/-- the non-negative rational square root, if there is one (`q` is in lowest terms, so it is a
+square iff numerator and denominator are) -/
+def ratSqrt? (q : Rat) : Option Rat :=
+  if q < 0 then none
+  else if q.num.natAbs.sqrt * q.num.natAbs.sqrt = q.num.natAbs ∧ q.den.sqrt * q.den.sqrt = q.den then
+    some ((q.num.natAbs.sqrt : Rat) / (q.den.sqrt : Rat))
+  else none
+
+/-- `(x, y) ↦ (hypot(x, y), direction of arctan2(y, x))`; `arctan2(0, 0) = 0`, direction `(1, 0)` -/
+def cartToPolar? : List Rat → Option (List Rat)
+  | [x, y] => (ratSqrt? (x * x + y * y)).map fun r => if r = 0 then [0, 1, 0] else [r, x / r, y / r]
+  | _ => none
+
+/-- `(r, θ) ↦ (r cos θ, r sin θ)` with `(cos θ, sin θ) = (c, s)` -/
+def polarToCart : List Rat → List Rat
+  | [r, c, s] => [r * c, r * s]
+  | p => p
+
+/-- `grid.as_('polar')` of a Cartesian grid: the conversion of its **current** points, one by one -/
+def Coords.asPolarPts (c : Coords) : List (Option (List Rat)) := c.points.map cartToPolar?
+
+/-- `grid.as_('cartesian')` of a polar grid whose `k`-th point has the direction `dirs[k]`
+(= `(cos θ_k, sin θ_k)`, supplied from outside: the model does not evaluate `cos`): the current
+radius of every point times its direction -/
+def Coords.asCartPts (dirs : List (Rat × Rat)) (c : Coords) : List (List Rat) :=
+  List.zipWith (fun p d => polarToCart [p.headD 0, d.1, d.2]) c.points dirs
 
 def dot (r p : List Rat) : Rat := ratSum (List.zipWith (· * ·) r p)
 
